@@ -47,6 +47,27 @@ V("c19d-clbit-register-local-index", "C19", {"rule": "C19d", "contains": "regist
 V("c19d-find-bit-through-local", "C19", "silent",
   (DRE, "qubit_indices = [qc.find_bit(q).index for q in instr_qiskit.qubits]",
    "locations = [qc.find_bit(q) for q in instr_qiskit.qubits]\n        qubit_indices = [location.index for location in locations]"))
+PREP = "piquasso/instructions/preparations.py"
+V("c18f-raw-get-unweighted", "C18", {"rule": "C18f", "contains": "NumberState.__add__"},
+  (PREP, "                    + other_amplitude_map[self.params[\"occupation_numbers\"]]\n",
+   "                    + other.params[\"fock_amplitude_map\"].get(self.params[\"occupation_numbers\"], 0.0)\n", 1))
+V("c18f-raw-get-weighted", "C18", "silent",
+  (PREP, "                    + other_amplitude_map[self.params[\"occupation_numbers\"]]\n",
+   "                    + other.params[\"fock_amplitude_map\"].get(self.params[\"occupation_numbers\"], 0.0) * other.params[\"coefficient\"]\n", 1))
+SIMPY = "piquasso/api/simulator.py"
+V("c16b-del-in-reversed-loop", "C16", {"rule": "C16b", "contains": "_delete_modes_from_active"},
+  (SIMPY, "        return tuple(\n            mode\n            for mode in active_modes\n            if mode not in Simulator._remap_modes_inverse(active_modes, modes)\n        )",
+   "        remaining_modes = list(active_modes)\n        for position in reversed(modes):\n            del remaining_modes[position]\n        return tuple(remaining_modes)"))
+V("c16b-del-in-sorted-descending-loop", "C16", "silent",
+  (SIMPY, "        return tuple(\n            mode\n            for mode in active_modes\n            if mode not in Simulator._remap_modes_inverse(active_modes, modes)\n        )",
+   "        remaining_modes = list(active_modes)\n        for position in sorted(modes, reverse=True):\n            del remaining_modes[position]\n        return tuple(remaining_modes)"))
+VALID = "piquasso/_math/validations.py"
+V("c17a-consecutive-by-span-only", "C17", {"rule": "C17a", "contains": "are_modes_consecutive"},
+  (VALID, "    expected = np.arange(modes[0], modes[-1] + 1)\n\n    return len(modes) == len(expected) and bool(np.all(modes == expected))",
+   "    return int(modes[-1]) - int(modes[0]) + 1 == len(modes)"))
+V("c17a-consecutive-by-differences", "C17", "silent",
+  (VALID, "    expected = np.arange(modes[0], modes[-1] + 1)\n\n    return len(modes) == len(expected) and bool(np.all(modes == expected))",
+   "    return all(b - a == 1 for a, b in zip(modes, modes[1:]))"))
 # ------------------------------------------------------------------------------------------- C20
 V("c20-sub-add", "C20", {"rule": "C20c", "contains": "Sub"}, (EXPR, "ast.Sub: op.sub", "ast.Sub: op.add"))
 V("c20-lt-le", "C20", {"rule": "C20c", "contains": "Lt"}, (EXPR, "ast.Lt: op.lt", "ast.Lt: op.le"))
